@@ -79,7 +79,10 @@ def lib_result(res, metrics=METRICS):
             out[k] = int(getattr(res, k))
         lists = {}
         for m in metrics:
-            lists[m] = [float(x) for x in res.get_list_metric(Metric[m], MetricMode.ALL)]
+            try:
+                lists[m] = [float(x) for x in res.get_list_metric(Metric[m], MetricMode.ALL)]
+            except Exception as e:  # a requested instance metric must be available in every result
+                raise H.Violation(f"per-instance list of the requested metric {m} is not available: {type(e).__name__}: {str(e)[:120]}")
         out["lists"] = lists
         want = {"rq"}
         for m_, ks in (("IOU", ("sq", "sq_std", "pq")), ("DSC", ("sq_dsc", "sq_dsc_std", "pq_dsc")), ("ASSD", ("sq_assd", "sq_assd_std")), ("RVD", ("sq_rvd", "sq_rvd_std"))):
